@@ -202,7 +202,11 @@ let () =
                 if r.rflag = 1 then begin
                   if not (List.exists (fun s -> s.b_idx < r.r_idx) succ) then add "e%d:test-ready-before-any-set" i
                   else if Some r.rval <> expected then add "e%d:test-read-%d-but-set-wrote-%d" i r.rval (match expected with Some v -> v | None -> 0)
-                end else if List.exists (fun s -> s.e_idx >= 0 && s.e_idx < r.b_idx) succ then add "e%d:test-not-ready-after-a-completed-set" i
+                end else begin
+                  if List.exists (fun s -> s.e_idx >= 0 && s.e_idx < r.b_idx) succ then add "e%d:test-not-ready-after-a-completed-set" i;
+                  if List.exists (fun w -> w.op = 1 && w.oret = 0 && w.e_idx >= 0 && w.e_idx < r.b_idx) g then
+                    add "e%d:test-not-ready-after-a-wait-returned" i
+                end
               end) g;
           (match expected with Some v -> buf := v | None -> ())) (generations ops)) eops;
   (* futures *)
@@ -251,7 +255,11 @@ let () =
                 if r.rflag = 1 then begin
                   if nsucc_begun_before r.r_idx < n then add "f%d:test-ready-before-%d-sets" i n;
                   if cb <> 0 && n > 0 && not (cb_last >= 0 && cb_last < r.r_idx) then add "f%d:test-ready-before-the-callback" i
-                end else if nsucc_ended_before r.b_idx >= n then add "f%d:test-not-ready-after-%d-completed-sets" i n
+                end else begin
+                  if nsucc_ended_before r.b_idx >= n then add "f%d:test-not-ready-after-%d-completed-sets" i n;
+                  if List.exists (fun w -> w.op = 11 && w.oret = 0 && w.e_idx >= 0 && w.e_idx < r.b_idx) g then
+                    add "f%d:test-not-ready-after-a-wait-returned" i
+                end
               end) g) (generations ops);
       if done_ && cbcount <> exp_cb_total.(i) then add "f%d:callback-count-%d-expected-%d" i cbcount exp_cb_total.(i)) fops;
   (* final model state: everything quiescent *)
